@@ -1286,9 +1286,9 @@ impl RaftLogManager {
                 if is_remove {
                     pop_count += 1;
                 }
-            } else {
-                break;
             }
+            // ranges that end at or below end_index (older files, snapshot pointer files)
+            // are kept as they are; the ranges after them still have to be cut
         }
         if pop_count > 0 {
             let log_count = self.logs.len() - pop_count;
